@@ -95,7 +95,12 @@ pub fn mk_graph(bytes: &[Vec<u8>]) -> (CompositionGraph, Local) {
 }
 
 /// the deterministic numbering walk
-pub fn walk(g: &CompositionGraph, local: &Local) -> (Vec<ItemKind>, HashMap<ItemKind, usize>) {
+pub fn walk(g: &CompositionGraph, local: &Local) -> (Vec<ItemKind>, HashMap<ItemKind, usize>) { walk_upto(g, local, usize::MAX) }
+
+/// packages 0..LEGACY_PKGS were the library when the first witnesses were recorded: their names keep their pool indexes
+pub const LEGACY_PKGS: usize = 28;
+
+pub fn walk_upto(g: &CompositionGraph, local: &Local, npk: usize) -> (Vec<ItemKind>, HashMap<ItemKind, usize>) {
     fn intern(types: &Types, k: ItemKind, reps: &mut Vec<ItemKind>, ids: &mut HashMap<ItemKind, usize>) -> usize {
         if let Some(i) = ids.get(&k) { return *i; }
         let i = reps.len(); reps.push(k); ids.insert(k, i);
@@ -105,7 +110,7 @@ pub fn walk(g: &CompositionGraph, local: &Local) -> (Vec<ItemKind>, HashMap<Item
     let (mut reps, mut ids) = (Vec::new(), HashMap::new());
     for k in &local.kinds { intern(g.types(), *k, &mut reps, &mut ids); }
     for d in &local.defs { intern(g.types(), ItemKind::Type(*d), &mut reps, &mut ids); }
-    for p in local.pkgs.iter().flatten() {
+    for p in local.pkgs.iter().take(npk).flatten() {
         let w = g.types()[p.ty()].clone();
         intern(g.types(), ItemKind::Instance(p.instance_type()), &mut reps, &mut ids);
         for (_, k) in &w.imports { intern(g.types(), *k, &mut reps, &mut ids); }
@@ -182,8 +187,11 @@ pub fn build_universe() -> Universe {
     // the name pool: fixed prefix, then every name occurring in a world or an instance type
     let mut names: Vec<String> = BASE_NAMES.iter().map(|s| s.to_string()).collect();
     let mut add = |n: &str| { if !names.iter().any(|x| x == n) { names.push(n.to_string()); } };
-    for k in &reps { if let ItemKind::Instance(id) = k { for n in types[*id].exports.keys() { add(n); } } }
-    for p in local.pkgs.iter().flatten() { let w = &types[p.ty()]; for n in w.imports.keys().chain(w.exports.keys()) { add(n); } }
+    let nlegacy = walk_upto(&g, &local, LEGACY_PKGS).0.len();
+    for k in &reps[..nlegacy] { if let ItemKind::Instance(id) = k { for n in types[*id].exports.keys() { add(n); } } }
+    for p in local.pkgs.iter().take(LEGACY_PKGS).flatten() { let w = &types[p.ty()]; for n in w.imports.keys().chain(w.exports.keys()) { add(n); } }
+    for k in &reps[nlegacy..] { if let ItemKind::Instance(id) = k { for n in types[*id].exports.keys() { add(n); } } }
+    for p in local.pkgs.iter().skip(LEGACY_PKGS).flatten() { let w = &types[p.ty()]; for n in w.imports.keys().chain(w.exports.keys()) { add(n); } }
     let nidx = |n: &str| names.iter().position(|x| x == n).unwrap();
     let mut header = Vec::new();
     let mut inst_exports = HashMap::new();
